@@ -12,7 +12,9 @@ LEVEL = "exploration"
 RULE = (
     "valid random DAGs (1-9 targets) into which 0-3 defects are injected: duplicate producer (same or different "
     "spelling), missing source file, self-loop, 2..n-cycle whose members are chosen anywhere (incl. unreachable from the "
-    "first-defined target) and embedded in acyclic context; definition order shuffled. lib lane: exception type of "
+    "first-defined target) and embedded in acyclic context; definition order shuffled; in half of the cases ~30% of the "
+    "targets carry the relative working directory '.' (gwf run from the project root) while neighbours name the same "
+    "files absolutely. lib lane: exception type of "
     "Graph.from_targets vs. model.validate (Kahn + duplicate/unresolved scan; the raised kind must be one that "
     "applies). cli lane: status, run, run --dry-run, touch, clean --all -f, cancel -f, info on the same project must "
     "all fail with a click error (exit 1, 'Error:') and leave the tree, the state JSON and the scheduler untouched "
@@ -30,7 +32,7 @@ KIND_EXC = {"multi": "FileProvidedByMultipleTargetsError", "unresolved": "Unreso
 RECURSION_FRAMES = {"visitor", "_schedule", "_cached_schedule", "_visit", "dfs_inner", "check_for_circular_dependencies", "inner", "wrapper"}
 
 
-QUICK_BUDGET = {"cases": 4000, "deadline_s": 170, "case_timeout_s": 900, "floors": {"lib_decisions": 1312, "cli_commands": 300, "size_runs": 12}}
+QUICK_BUDGET = {"cases": 4000, "deadline_s": 170, "case_timeout_s": 900, "floors": {"lib_decisions": 1312, "cli_commands": 300, "size_runs": 12, "relative_wd_cases": 400}}
 THOROUGH_FACTOR = 10  # thorough = the same workload with 10x the cases (floors scale along)
 
 
@@ -108,6 +110,8 @@ def plain_variant(case, root):
 
     r = random.Random(case["shape_seed"])
     ts = case["dag"]["targets"]
+    r2 = random.Random(case["shape_seed"] + 1)
+    relwd = [r2.random() < 0.3 for _ in ts] if r2.random() < 0.5 else [False] * len(ts)
     out = []
     for i in case["order"]:
         t = ts[i]
@@ -116,7 +120,10 @@ def plain_variant(case, root):
         out.append(
             {
                 "name": t["name"],
-                "wd": None,
+                # some targets carry a RELATIVE working directory ("."); gwf is run from the project root, so
+                # they denote the same files as their neighbours that use the absolute default
+                "wd": root if relwd[i] else None,
+                "wd_spelled": "." if relwd[i] else None,
                 "ins": ins,
                 "outs": outs,
                 "ins_expr": gen.shape_expr(r, [repr(p) for p in ins]),
@@ -171,23 +178,29 @@ def run_lib(case, root, variant, kinds, res):
     from .. import inproc
 
     res.mon("lib_decisions")
+    here = os.getcwd()
     try:
+        os.chdir(root)
         wf = inproc.build_workflow(root, variant)
         inproc.graph_of(wf)
         got = None
     except inproc.gwf.exceptions.GWFError as e:
         got = type(e).__name__
     except Exception as e:
-        res.violation("crash", "graph building crashed with %r" % (e,), variant=[(t["name"], t["ins"], t["outs"]) for t in variant])
+        res.violation("crash", "graph building crashed with %r" % (e,), variant=[(t["name"], t.get("wd_spelled"), t["ins"], t["outs"]) for t in variant])
         return
+    finally:
+        os.chdir(here)
+    if any(t.get("wd_spelled") for t in variant):
+        res.mon("relative_wd_cases")
     want = {KIND_EXC[k] for k in kinds}
-    res.obs("decision", {"targets": [(t["name"], t["ins"], t["outs"]) for t in variant], "defects_that_apply": sorted(kinds), "gwf_raised": got})
+    res.obs("decision", {"targets": [(t["name"], t.get("wd_spelled"), t["ins"], t["outs"]) for t in variant], "defects_that_apply": sorted(kinds), "gwf_raised": got})
     if not kinds and got is not None:
-        res.violation("false-reject", "well-formed workflow rejected with %s" % got, variant=[(t["name"], t["ins"], t["outs"]) for t in variant])
+        res.violation("false-reject", "well-formed workflow rejected with %s" % got, variant=[(t["name"], t.get("wd_spelled"), t["ins"], t["outs"]) for t in variant])
     elif kinds and got is None:
-        res.violation("false-accept", "workflow with defects %s accepted" % sorted(kinds), variant=[(t["name"], t["ins"], t["outs"]) for t in variant], defects=case["defects"])
+        res.violation("false-accept", "workflow with defects %s accepted" % sorted(kinds), variant=[(t["name"], t.get("wd_spelled"), t["ins"], t["outs"]) for t in variant], defects=case["defects"])
     elif kinds and got not in want:
-        res.violation("wrong-kind", "raised %s but the defects that apply are %s" % (got, sorted(kinds)), variant=[(t["name"], t["ins"], t["outs"]) for t in variant])
+        res.violation("wrong-kind", "raised %s but the defects that apply are %s" % (got, sorted(kinds)), variant=[(t["name"], t.get("wd_spelled"), t["ins"], t["outs"]) for t in variant])
 
 
 def semantic_state(proj):
@@ -195,7 +208,7 @@ def semantic_state(proj):
 
 
 def run_cli(case, proj, variant, kinds, res):
-    proj.write_workflow(gen.render_workflow([dict(t, route="target") for t in variant]))
+    proj.write_workflow(gen.render_workflow([dict(t, route="template", wd_arg=".") if t.get("wd_spelled") else dict(t, route="target") for t in variant]))
     proj.write_config({"backend": "slurm", "use_spec_hashes": True})
     # some outputs exist so that clean/touch would have something to do
     for t in variant[::2]:
